@@ -60,7 +60,7 @@ def holdsH : Handler := fun args => do
     | some ci, some co => equiv (absSegments co) (absSegments ci)
     | _, _ => false
   let hz := (match pi with | some ci => Spec.SvgHazard.hazards ci | none => []) ++
-    (if Spec.SvgHazard.dotExp i then ["dotexp"] else [])
+    (if Spec.SvgHazard.trailDot i then ["traildot"] else [])
   .ok (listReply [boolBytes vi, boolBytes vo, boolBytes eq, strBytes (",".intercalate hz)])
 
 /-- `spec.c05.segs path` → normalised absolute segments, human readable (for finding reports) -/
